@@ -406,9 +406,44 @@ type hookC13 struct{ noHook }
 //	S = merge    M        merge with a sketch of another mapping
 //	S = reweight W        factor <= 0
 //	S = ctor     V I      constructor parameters at and beyond the limits (V = parameter, I = which constructor)
+// decayq N : on a copy of node N every weight is re-weighted away (two factors of 2^-600 make them
+// underflow to 0): its count is then 0 and a quantile request must be refused like on an empty sketch.
+func c13DecayQuery(x *fleetExec, e engine.Event) {
+	nd := x.nodes[e.N]
+	if nd == nil || nd.dirty || nd.model.IsEmpty() {
+		return
+	}
+	sig := "decayq/" + nd.spec.Role + "/" + nd.spec.Store
+	c := copySk(nd.real)
+	for k := 0; k < 2; k++ {
+		x.lib("Reweight", sig, func() {
+			if err := c.Reweight(math.Ldexp(1, -600)); err != nil {
+				x.fail("accepts-valid", sig, "Reweight(2^-600) refused: "+err.Error(), "accepted", err.Error())
+			}
+		})
+	}
+	var count float64
+	x.lib("GetCount", sig, func() { count = c.GetCount() })
+	if count != 0 {
+		return
+	}
+	x.st.Oracle("error-identity")
+	x.st.Probe("quantile-of-a-sketch-whose-weights-decayed-to-zero")
+	var e1, e2 error
+	x.lib("GetValueAtQuantile", sig, func() { _, e1 = c.GetValueAtQuantile(0.5) })
+	x.lib("GetValuesAtQuantiles", sig, func() { _, e2 = c.GetValuesAtQuantiles([]float64{0, 1}) })
+	if e1 == nil || e2 == nil {
+		x.fail("error-identity", sig, "a sketch whose count is 0 answered a quantile request", "the empty-sketch error", fmt.Sprint(e1, " / ", e2))
+	}
+}
+
 func (hookC13) event(x *fleetExec, e engine.Event) bool {
 	if e.Ev == "query" {
 		return false
+	}
+	if e.Ev == "decayq" {
+		c13DecayQuery(x, e)
+		return true
 	}
 	if e.Ev != "badreq" {
 		return false
@@ -431,7 +466,17 @@ func (hookC13) event(x *fleetExec, e engine.Event) bool {
 	case "add":
 		v, w := float64(e.V), float64(e.W)
 		maxv := nd.mapping.MaxIndexableValue()
-		badV := math.IsNaN(v) || math.Abs(v) > maxv
+		// "indexable" also means that the bin index fits 32 bits (it travels as an int32): judged here on the
+		// index itself, not on the bound the mapping reports
+		over := false
+		if a := math.Abs(v); !math.IsNaN(v) && a <= maxv && a >= nd.mapping.MinIndexableValue() {
+			x.lib("Index", sig, func() {
+				idx := nd.mapping.Index(a)
+				over = idx > math.MaxInt32 || idx < math.MinInt32
+			})
+			x.st.ProbeIf(over, "index-beyond-int32-offered")
+		}
+		badV := math.IsNaN(v) || math.Abs(v) > maxv || over
 		badW := w < 0
 		if math.IsNaN(w) || math.IsInf(w, 1) || (!badV && !badW) {
 			return true // outside the contract, or not a bad request at all
@@ -446,7 +491,7 @@ func (hookC13) event(x *fleetExec, e engine.Event) bool {
 			want = ddsketch.ErrNegativeCount
 		case math.IsNaN(v):
 			want = ddsketch.ErrUntrackableNaN
-		case v > maxv:
+		case v > maxv || (over && v > 0):
 			want = ddsketch.ErrUntrackableTooHigh
 		default:
 			want = ddsketch.ErrUntrackableTooLow
